@@ -8,6 +8,9 @@ export VERIF_DIR
 export GOFLAGS=-mod=mod GOPROXY=off GOSUMDB=off GOTOOLCHAIN=local CGO_ENABLED=1
 cd "$VERIF_DIR/harness" || exit 2
 mkdir -p "$VERIF_DIR/bin" "$VERIF_DIR/work"
+# coverage probe: the compiler instruments mux's packages (the main package has to be listed for the counters to be written)
+export GOCOVERDIR="$VERIF_DIR/work/cov-parent"; mkdir -p "$GOCOVERDIR"
+COVERPKG=verifharness/cmd/vcheck,github.com/issue9/mux/v9,github.com/issue9/mux/v9/internal/tree,github.com/issue9/mux/v9/internal/syntax,github.com/issue9/mux/v9/internal/trace,github.com/issue9/mux/v9/types
 
 build() { # $1 = output name, rest = extra flags
   local out="$1"; shift
@@ -20,16 +23,16 @@ build() { # $1 = output name, rest = extra flags
 
 case "${1:-}" in
   build)
-    build vcheck; build vstress -race; exit 0 ;;
+    build vcheck -cover -covermode=atomic "-coverpkg=$COVERPKG"; build vstress -race; exit 0 ;;
   replay)
-    build vcheck; build vstress -race
+    build vcheck -cover -covermode=atomic "-coverpkg=$COVERPKG"; build vstress -race
     prop=$(jq -r .property "$2")
     case "$prop" in C06|C07) exec "$VERIF_DIR/bin/vstress" replay "$2" ;; *) exec "$VERIF_DIR/bin/vcheck" replay "$2" ;; esac ;;
   C06|C07)
     build vstress -race
     exec "$VERIF_DIR/bin/vstress" run -prop "$1" -tier "${2:-${VERIF_TIER:-quick}}" ;;
   C*)
-    build vcheck
+    build vcheck -cover -covermode=atomic "-coverpkg=$COVERPKG"
     exec "$VERIF_DIR/bin/vcheck" run -prop "$1" -tier "${2:-${VERIF_TIER:-quick}}" ;;
   *)
     echo "usage: run.sh <property> [quick|thorough] | replay <file> | build"; exit 2 ;;
